@@ -337,6 +337,9 @@ func tableCase(r *vlib.RNG, b budget, out *caseOut) {
 				checkProbe(tc, o, strict, p, out)
 			}
 			checkOffsets(tc, o, strict, probes, out)
+			if si == 0 {
+				checkPolicy(tc, o, strict, probes, out)
+			}
 			checkDecoy(tc, o, strict, out)
 			for _, w := range walks {
 				checkWalk(tc, o, strict, w.rs, w.ops, out)
